@@ -364,8 +364,11 @@ Qed.
 Lemma msg_finish_batch s h r : batch (msg_finish s h r) = r.
 Proof. unfold msg_finish. destruct (h_oneshot _); [rewrite stop_batch|]; reflexivity. Qed.
 
+Lemma msg_skip_batch fs s h r : batch (msg_skip fs s h r) = r.
+Proof. unfold msg_skip. destruct fs; [reflexivity | apply msg_finish_batch]. Qed.
+
 Section Rule.
-  Variables (fx : bool) (beh : nat -> list op).
+  Variables (fx fs : bool) (beh : nat -> list op).
   Variable P : ctx -> state -> Prop.
   Hypothesis H_api : forall c s o, c <> CMid -> P c s -> P c (api_snap fx s o).
   Hypothesis H_begin : forall s l, P CTop s -> P CMid (log s (ERunBegin l)).
@@ -375,7 +378,7 @@ Section Rule.
   Hypothesis H_exit : forall s h sig r, P (CCb h) s -> batch s = (h, sig) :: r ->
     P CMid (msg_finish (log s (ECbEnd h)) h r).
   Hypothesis H_skip : forall s h sig r, P CMid s -> batch s = (h, sig) :: r ->
-    sig <> h_signum (get s h) -> P CMid (msg_finish s h r).
+    sig <> h_signum (get s h) -> P CMid (msg_skip fs s h r).
   (* [Rq s h]: what is known about a handle taken from the closing queue *)
   Variable Rq : state -> nat -> Prop.
   Hypothesis H_q0 : forall s l h, P CMid s -> In h (clq_of s l) -> Rq s h.
@@ -392,7 +395,7 @@ Section Rule.
   Proof. intros Hc; induction os; intros; simpl; auto. Qed.
 
   Lemma rule_msg s m r : P CMid s -> batch s = m :: r ->
-    P CMid (process_msg fx beh s m r) /\ batch (process_msg fx beh s m r) = r.
+    P CMid (process_msg fx fs beh s m r) /\ batch (process_msg fx fs beh s m r) = r.
   Proof.
     intros HP Hb. destruct m as [h sig]. unfold process_msg. cbn [fst snd].
     destruct (Nat.eqb_spec sig (h_signum (get s h))) as [E|E].
@@ -400,18 +403,18 @@ Section Rule.
       eapply H_exit with (sig := sig).
       + apply rule_script; [discriminate|]. eapply H_enter; eauto.
       + rewrite script_batch. exact Hb.
-    - split; [|apply msg_finish_batch]. eapply H_skip; eauto.
+    - split; [|apply msg_skip_batch]. eapply H_skip; eauto.
   Qed.
 
   Lemma rule_msgs b : forall s, P CMid s -> batch s = b ->
-    P CMid (process_msgs fx beh s b) /\ batch (process_msgs fx beh s b) = [].
+    P CMid (process_msgs fx fs beh s b) /\ batch (process_msgs fx fs beh s b) = [].
   Proof.
     induction b as [|m r IH]; intros s HP Hb; simpl; auto.
     destruct (rule_msg s m r HP Hb) as [A B]. apply IH; auto.
   Qed.
 
   Lemma rule_event fuel l : forall s, P CMid s -> batch s = [] ->
-    P CMid (signal_event fx beh fuel s l) /\ batch (signal_event fx beh fuel s l) = [].
+    P CMid (signal_event fx fs beh fuel s l) /\ batch (signal_event fx fs beh fuel s l) = [].
   Proof.
     induction fuel as [|f IH]; intros s HP Hb; cbn [signal_event]; auto.
     destruct (pipe_of s l) eqn:Ep; auto.
@@ -431,17 +434,17 @@ Section Rule.
   Qed.
 
   Lemma rule_dispatch fuel l s : P CTop s -> batch s = [] ->
-    P CTop (dispatch fx beh fuel s l) /\ batch (dispatch fx beh fuel s l) = [].
+    P CTop (dispatch fx fs beh fuel s l) /\ batch (dispatch fx fs beh fuel s l) = [].
   Proof.
     intros HP Hb. unfold dispatch.
     destruct (rule_event fuel l (log s (ERunBegin l))) as [A B]; auto.
-    destruct (rule_finish_all l (clq_of (signal_event fx beh fuel (log s (ERunBegin l)) l) l)
-                (set_clq (signal_event fx beh fuel (log s (ERunBegin l)) l) l [])) as [C D]; auto.
+    destruct (rule_finish_all l (clq_of (signal_event fx fs beh fuel (log s (ERunBegin l)) l) l)
+                (set_clq (signal_event fx fs beh fuel (log s (ERunBegin l)) l) l [])) as [C D]; auto.
     intros h Hh. apply H_q_clq. eapply H_q0; eauto.
   Qed.
 
   Lemma rule_top fuel s o : P CTop s -> batch s = [] ->
-    P CTop (top fx beh fuel s o) /\ batch (top fx beh fuel s o) = [].
+    P CTop (top fx fs beh fuel s o) /\ batch (top fx fs beh fuel s o) = [].
   Proof.
     intros HP Hb.
     assert (G : P CTop (api_snap fx s o) /\ batch (api_snap fx s o) = []).
@@ -450,7 +453,7 @@ Section Rule.
   Qed.
 
   Theorem rule_run fuel os : forall s, P CTop s -> batch s = [] ->
-    P CTop (run fx beh fuel s os) /\ batch (run fx beh fuel s os) = [].
+    P CTop (run fx fs beh fuel s os) /\ batch (run fx fs beh fuel s os) = [].
   Proof.
     induction os as [|o os IH]; intros s HP Hb; simpl; auto.
     destruct (rule_top fuel s o HP Hb). apply IH; auto.
@@ -646,9 +649,9 @@ Proof.
   - rewrite stop_get_other by auto. apply A.
 Qed.
 
-Lemma tinv_api fx c s o : c <> CMid -> TInv c s -> TInv c (api_snap fx s o).
+Lemma tinv_api_pre fx c s o : c <> CMid -> TInv c s -> TInv c (api fx s o).
 Proof.
-  intros Hc T. unfold api_snap. apply tinv_snap with (c := c); auto.
+  intros Hc T.
   destruct T as [A Mp Mb N O B L].
   (* in a synchronised context a non-idle mode means really watching *)
   assert (Sy : forall h sg, (mode_of (tr s) h = MPers sg \/ exists k, mode_of (tr s) h = MOne sg k) ->
@@ -800,6 +803,12 @@ Proof.
     split; ssimpl; auto; simpl; rewrite ?N, ?O; auto.
 Qed.
 
+Lemma tinv_api fx c s o : c <> CMid -> TInv c s -> TInv c (api_snap fx s o).
+Proof.
+  intros Hc T. unfold api_snap. apply tinv_snap with (c := c); auto. apply tinv_api_pre; auto.
+Qed.
+
+
 Lemma get_inc_disp s h h' :
   same_core (get s h') (get (upd_h s h h_inc_dispatched) h') \/ h = h'.
 Proof.
@@ -924,6 +933,31 @@ Proof.
     + rewrite f1 by auto. apply L.
 Qed.
 
+Lemma inc_disp_same s h r x :
+  let y := get (upd_h (with_batch s r) h h_inc_dispatched) x in
+  h_signum y = h_signum (get s x) /\ h_oneshot y = h_oneshot (get s x) /\ h_active y = h_active (get s x).
+Proof.
+  cbv zeta. destruct (Nat.eq_dec h x) as [<-|N].
+  - destruct (inc_disp_fields s h r) as (a&b&c&d&_). cbv zeta in *. auto.
+  - rewrite get_upd_other by auto. gs. auto.
+Qed.
+
+Lemma link_fields c h m x y : h_signum y = h_signum x -> h_oneshot y = h_oneshot x ->
+  link c h m x -> link c h m y.
+Proof. intros a b L. destruct m; simpl in *; rewrite ?a, ?b; auto. Qed.
+
+Lemma tinv_skip_fs fs s h sig r : TInv CMid s -> batch s = (h, sig) :: r -> sig <> h_signum (get s h) ->
+  TInv CMid (msg_skip fs s h r).
+Proof.
+  intros T Hb Hn. unfold msg_skip. destruct fs; [|eapply tinv_skip; eauto].
+  destruct T as [A Mp Mb N O B L].
+  split; auto.
+  - intros x. destruct (inc_disp_same s h r x) as (a&_&b). cbv zeta in *. rewrite a, b. apply A.
+  - intros m Hm. apply Mb. rewrite Hb. simpl; auto.
+  - intros x Hx. rewrite len_upd_h in Hx. apply B. exact Hx.
+  - intros x. destruct (inc_disp_same s h r x) as (a&b&_). eapply link_fields; eauto.
+Qed.
+
 Lemma tinv_exit s h sig r : TInv (CCb h) s -> batch s = (h, sig) :: r ->
   TInv CMid (msg_finish (log s (ECbEnd h)) h r).
 Proof.
@@ -988,12 +1022,12 @@ Proof.
   - intros h. unfold get. simpl. destruct h; reflexivity.
 Qed.
 
-Theorem tinv_run fx beh fuel c ops : TInv CTop (run fx beh fuel (init c) ops).
+Theorem tinv_run fx fs beh fuel c ops : TInv CTop (run fx fs beh fuel (init c) ops).
 Proof.
-  apply (rule_run fx beh TInv) with (Rq := fun _ _ => True); auto using tinv_api, tinv_begin, tinv_take, tinv_clq, tinv_closed, tinv_end, tinv_init.
+  apply (rule_run fx fs beh TInv) with (Rq := fun _ _ => True); auto using tinv_api, tinv_begin, tinv_take, tinv_clq, tinv_closed, tinv_end, tinv_init.
   - intros; eapply tinv_enter; eauto.
   - intros; eapply tinv_exit; eauto.
-  - intros; eapply tinv_skip; eauto.
+  - intros; eapply tinv_skip_fs; eauto.
 Qed.
 
 (* ------------------------------------------------------------------ *)
@@ -1045,26 +1079,26 @@ Proof.
   rewrite IH by (intros; apply Hn; simpl; auto). apply mode_step_idle. apply Hn; simpl; auto.
 Qed.
 
-Theorem none_after_stop fx beh fuel c ops t2 t1 t0 h sig o r :
-  tr (run fx beh fuel (init c) ops) = t2 ++ ECb h sig :: t1 ++ EOp o r :: t0 ->
+Theorem none_after_stop fx fs beh fuel c ops t2 t1 t0 h sig o r :
+  tr (run fx fs beh fuel (init c) ops) = t2 ++ ECb h sig :: t1 ++ EOp o r :: t0 ->
   o = OStop h \/ o = OClose h ->
   (forall e, In e t1 -> ~ is_start_of h e) ->
   False.
 Proof.
   intros Ht Ho Hn.
-  pose proof (t_nas _ _ (tinv_run fx beh fuel c ops)) as N. rewrite Ht in N.
+  pose proof (t_nas _ _ (tinv_run fx fs beh fuel c ops)) as N. rewrite Ht in N.
   apply nas_ok_app in N. simpl in N. apply andb_true_iff in N. destruct N as [_ N].
   rewrite mode_idle_persist in N; auto; try discriminate.
   simpl. destruct Ho; subst o; simpl; rewrite Nat.eqb_refl; reflexivity.
 Qed.
 
 (* a callback is only ever made for the signal the handle is watching *)
-Theorem callback_matches_watch fx beh fuel c ops t2 t0 h sig :
-  tr (run fx beh fuel (init c) ops) = t2 ++ ECb h sig :: t0 ->
+Theorem callback_matches_watch fx fs beh fuel c ops t2 t0 h sig :
+  tr (run fx fs beh fuel (init c) ops) = t2 ++ ECb h sig :: t0 ->
   cb_allowed (mode_of t0 h) sig = true.
 Proof.
   intros Ht.
-  pose proof (t_nas _ _ (tinv_run fx beh fuel c ops)) as N. rewrite Ht in N.
+  pose proof (t_nas _ _ (tinv_run fx fs beh fuel c ops)) as N. rewrite Ht in N.
   apply nas_ok_app in N. simpl in N. apply andb_true_iff in N. apply N.
 Qed.
 
@@ -1107,33 +1141,33 @@ Proof.
       destruct IH as [[E C]|[[E C]|[E C]]]; right; right; split; auto; lia.
 Qed.
 
-Theorem oneshot_at_most_one fx beh fuel c ops seg t0 h sig :
-  tr (run fx beh fuel (init c) ops) = seg ++ EOp (OStartOneshot h sig) 0%Z :: t0 ->
+Theorem oneshot_at_most_one fx fs beh fuel c ops seg t0 h sig :
+  tr (run fx fs beh fuel (init c) ops) = seg ++ EOp (OStartOneshot h sig) 0%Z :: t0 ->
   sig <> 0 -> mode_of t0 h = MIdle ->
   (forall e, In e seg -> ~ is_api_on h e) ->
   count_cb h seg <= 1.
 Proof.
   intros Ht Hs Hm Hn.
-  pose proof (tinv_run fx beh fuel c ops) as T.
+  pose proof (tinv_run fx fs beh fuel c ops) as T.
   pose proof (t_nas _ _ T) as N. pose proof (t_one _ _ T) as O. rewrite Ht in N, O.
   destruct (oneshot_session_count seg (EOp (OStartOneshot h sig) 0%Z :: t0) h sig N O) as [[_ C]|[[_ C]|[_ C]]]; auto; try lia.
   simpl. rewrite Nat.eqb_refl, Hm. unfold mode_start.
   destruct (Nat.eqb_spec sig 0); [congruence|]. reflexivity.
 Qed.
 
-Theorem idle_means_stopped fx beh fuel c ops h :
-  let s := run fx beh fuel (init c) ops in
+Theorem idle_means_stopped fx fs beh fuel c ops h :
+  let s := run fx fs beh fuel (init c) ops in
   mode_of (tr s) h = MIdle -> h_signum (get s h) = 0 /\ h_active (get s h) = false.
 Proof.
-  cbv zeta. intros Hm. pose proof (tinv_run fx beh fuel c ops) as T.
+  cbv zeta. intros Hm. pose proof (tinv_run fx fs beh fuel c ops) as T.
   pose proof (t_link _ _ T h) as L. rewrite Hm in L. simpl in L.
   split; auto. rewrite (t_act _ _ T h), L. reflexivity.
 Qed.
 
 (* ... and is then stopped: once the callback of a one-shot session has returned the
    handle is stopped (until the program starts it again) *)
-Theorem oneshot_then_stopped fx beh fuel c ops seg t0 h sg k :
-  let s := run fx beh fuel (init c) ops in
+Theorem oneshot_then_stopped fx fs beh fuel c ops seg t0 h sg k :
+  let s := run fx fs beh fuel (init c) ops in
   tr s = seg ++ ECbEnd h :: t0 ->
   mode_of t0 h = MOne sg k ->
   (forall e, In e seg -> ~ is_start_of h e) ->
@@ -1875,13 +1909,13 @@ Proof.
   - intros h. rewrite G. reflexivity.
 Qed.
 
-Theorem sinv_run fx beh fuel c ops : SInv (run fx beh fuel (init c) ops).
+Theorem sinv_run fx fs beh fuel c ops : SInv (run fx fs beh fuel (init c) ops).
 Proof.
-  apply (rule_run fx beh (fun _ => SInv)) with (Rq := fun s h => h_closing (get s h) = true);
+  apply (rule_run fx fs beh (fun _ => SInv)) with (Rq := fun s h => h_closing (get s h) = true);
     auto using sinv_api, sinv_log, sinv_take, sinv_clq_nil, sinv_requeue, sinv_closed, sinv_init0.
   - intros; apply sinv_cb_enter; auto.
   - intros; eapply sinv_finish; eauto. apply sinv_log; auto.
-  - intros; eapply sinv_finish; eauto.
+  - intros; unfold msg_skip; destruct fs; [eapply sinv_pop | eapply sinv_finish]; eauto.
   - intros s l h [C K] Hh. eapply (s_clq _ C); eauto.
   - intros s h' h Hc. gs. destruct (Nat.eq_dec h' h) as [->|Hn].
     + destruct (Nat.lt_ge_cases h (length (hs s))).
@@ -1892,34 +1926,34 @@ Proof.
 Qed.
 
 (* invariants S1 (sorted, duplicate-free), S2, S3 for every reachable state *)
-Theorem tree_sorted_nodup fx beh fuel c ops :
-  let s := run fx beh fuel (init c) ops in
+Theorem tree_sorted_nodup fx fs beh fuel c ops :
+  let s := run fx fs beh fuel (init c) ops in
   StronglySorted (fun a b => sig_compare (get s a) a (get s b) b = Lt) (tree s) /\ NoDup (tree s).
 Proof.
-  cbv zeta. destruct (sinv_run fx beh fuel c ops) as [C _]. split.
+  cbv zeta. destruct (sinv_run fx fs beh fuel c ops) as [C _]. split.
   - pose proof (s_sorted _ C) as S. clear C. induction S as [|y t H IH F]; constructor; auto.
     rewrite Forall_forall in *. intros z Hz. apply cmp_lt. apply F; auto.
   - eapply sorted_nodup. apply (s_sorted _ C).
 Qed.
 
-Theorem tree_iff_started fx beh fuel c ops h :
-  let s := run fx beh fuel (init c) ops in
+Theorem tree_iff_started fx fs beh fuel c ops h :
+  let s := run fx fs beh fuel (init c) ops in
   In h (tree s) <-> h_signum (get s h) <> 0.
-Proof. cbv zeta. destruct (sinv_run fx beh fuel c ops) as [C _]. apply (s_tree _ C). Qed.
+Proof. cbv zeta. destruct (sinv_run fx fs beh fuel c ops) as [C _]. apply (s_tree _ C). Qed.
 
-Theorem caught_minus_dispatched fx beh fuel c ops h :
-  let s := run fx beh fuel (init c) ops in
+Theorem caught_minus_dispatched fx fs beh fuel c ops h :
+  let s := run fx fs beh fuel (init c) ops in
   h < length (hs s) ->
   h_caught (get s h) = h_dispatched (get s h) + pending s h.
-Proof. cbv zeta. destruct (sinv_run fx beh fuel c ops) as [C _]. apply (s_count _ C). Qed.
+Proof. cbv zeta. destruct (sinv_run fx fs beh fuel c ops) as [C _]. apply (s_count _ C). Qed.
 
 (* close_cb only after every signal caught for the handle has left the pipe *)
-Theorem closed_nothing_pending fx beh fuel c ops h :
-  let s := run fx beh fuel (init c) ops in
+Theorem closed_nothing_pending fx fs beh fuel c ops h :
+  let s := run fx fs beh fuel (init c) ops in
   h_closed (get s h) = true ->
   pending s h = 0 /\ h_closing (get s h) = true /\ h_signum (get s h) = 0 /\ ~ In h (tree s).
 Proof.
-  cbv zeta. intros Hc. destruct (sinv_run fx beh fuel c ops) as [C K].
+  cbv zeta. intros Hc. destruct (sinv_run fx fs beh fuel c ops) as [C K].
   pose proof (s_closed _ C h Hc) as Hcl.
   repeat split; auto. apply (s_closed0 _ C); auto.
   rewrite (s_tree _ C). intros N. apply N. auto.
@@ -2275,16 +2309,18 @@ Proof.
   destruct (h_oneshot _); auto. apply dinv_stop; auto.
 Qed.
 
-Theorem pd_run fx beh fuel c ops : PD CTop (run fx beh fuel (init c) ops).
+Theorem pd_run fx fs beh fuel c ops : PD CTop (run fx fs beh fuel (init c) ops).
 Proof.
-  apply (rule_run fx beh PD) with (Rq := fun s h => h_closing (get s h) = true).
+  apply (rule_run fx fs beh PD) with (Rq := fun s h => h_closing (get s h) = true).
   - intros; apply pd_api; auto.
   - intros s l [I D]. split; [apply sinv_log; auto | apply dinv_log; auto].
   - intros s l [I D] Hb. split; [apply sinv_take; auto | deq D].
   - intros s h sig r [I D] _ _. split; [apply sinv_cb_enter; auto | deq D].
   - intros s h sig r [I D] Hb. eapply pd_finish with (c := CMid) (sig := sig); [|exact Hb].
     split; [apply sinv_log; auto | apply dinv_log; auto].
-  - intros s h sig r P Hb _. eapply pd_finish; eauto.
+  - intros s h sig r P Hb _. unfold msg_skip. destruct fs; [|eapply pd_finish; eauto].
+    destruct P as [I D]. split; [eapply sinv_pop; eauto|].
+    apply dinv_upd; [intros; repeat split|]. deq D.
   - intros s l h [[C K] D] Hh. eapply (s_clq _ C); eauto.
   - auto.
   - intros s h' h Hc. gs. destruct (Nat.eq_dec h' h) as [->|Hn].
@@ -2313,46 +2349,46 @@ Definition is_handler (d : disp) : bool := match d with Handler _ => true | Defa
 Definition watches (s : state) (h sig : nat) : Prop :=
   entry s sig h /\ ~ (h_oneshot (get s h) = true /\ g_fired (get s h) = true).
 
-Theorem disposition_partial fx beh fuel c ops sig :
+Theorem disposition_partial fx fs beh fuel c ops sig :
   sig <> 0 ->
-  let s := run fx beh fuel (init c) ops in
+  let s := run fx fs beh fuel (init c) ops in
   ((forall h, ~ entry s sig h) -> disp_of s sig = Default) /\
   (forall h, entry s sig h -> h_oneshot (get s h) = false -> disp_of s sig = Handler false) /\
   (is_handler (disp_of s sig) = true -> exists h, entry s sig h) /\
   (race s = false -> (exists h, watches s h sig) -> is_handler (disp_of s sig) = true).
 Proof.
-  intros Hs. cbv zeta. destruct (pd_run fx beh fuel c ops) as [_ D].
+  intros Hs. cbv zeta. destruct (pd_run fx fs beh fuel c ops) as [_ D].
   destruct (D sig Hs) as [A B C]. repeat split; auto.
   - intros Hh.
-    destruct (existsb (fun y => h_signum (get (run fx beh fuel (init c) ops) y) =? sig)
-                (tree (run fx beh fuel (init c) ops))) eqn:E.
+    destruct (existsb (fun y => h_signum (get (run fx fs beh fuel (init c) ops) y) =? sig)
+                (tree (run fx fs beh fuel (init c) ops))) eqn:E.
     + apply existsb_exists in E. destruct E as (y&a&b). apply Nat.eqb_eq in b. exists y. split; auto.
     + rewrite A in Hh; [discriminate|]. intros y [a b].
-      assert (X : existsb (fun y => h_signum (get (run fx beh fuel (init c) ops) y) =? sig)
-                    (tree (run fx beh fuel (init c) ops)) = true); [|congruence].
+      assert (X : existsb (fun y => h_signum (get (run fx fs beh fuel (init c) ops) y) =? sig)
+                    (tree (run fx fs beh fuel (init c) ops)) = true); [|congruence].
       apply existsb_exists. exists y. split; auto. apply Nat.eqb_eq; auto.
   - intros Hr (h&He&Hn).
-    destruct (h_oneshot (get (run fx beh fuel (init c) ops) h)) eqn:Ef.
-    + destruct (disp_of (run fx beh fuel (init c) ops) sig) eqn:Ed; [|reflexivity].
+    destruct (h_oneshot (get (run fx fs beh fuel (init c) ops) h)) eqn:Ef.
+    + destruct (disp_of (run fx fs beh fuel (init c) ops) sig) eqn:Ed; [|reflexivity].
       exfalso. apply Hn. split; auto.
     + rewrite (B h He Ef). reflexivity.
 Qed.
 
 (* the full clause, as the property states it, does not hold: the SA_RESETHAND window *)
-Definition disposition_iff_watched_statement (fx : bool) : Prop :=
+Definition disposition_iff_watched_statement (fx fs : bool) : Prop :=
   forall beh fuel c ops sig, sig <> 0 ->
-  let s := run fx beh fuel (init c) ops in
+  let s := run fx fs beh fuel (init c) ops in
   is_handler (disp_of s sig) = true <-> exists h, watches s h sig.
 
 Definition race_ops : list op :=
   [OInit 0; OInit 0; OStartOneshot 0 10; ORaise 10; OStartOneshot 1 10].
 
-Theorem resethand_race_refuted : forall fx, ~ disposition_iff_watched_statement fx.
+Theorem resethand_race_refuted : forall fx fs, ~ disposition_iff_watched_statement fx fs.
 Proof.
-  intros fx H. specialize (H (fun _ => []) 0 16 race_ops 10).
+  intros fx fs H. specialize (H (fun _ => []) 0 16 race_ops 10).
   assert (N : 10 <> 0) by discriminate. specialize (H N). cbv zeta in H.
   destruct H as [_ H].
-  assert (W : exists h, watches (run fx (fun _ => []) 0 (init 16) race_ops) h 10).
+  assert (W : exists h, watches (run fx fs (fun _ => []) 0 (init 16) race_ops) h 10).
   { exists 1. destruct fx; split; vm_compute; intuition; try discriminate. }
   specialize (H W). destruct fx; vm_compute in H; discriminate.
 Qed.
@@ -2365,9 +2401,9 @@ Definition fresh_like (x : handle) (sig : nat) (os : bool) : Prop :=
 
 (* "starting it again behaves like a fresh handle": what a start on a freshly
    initialised handle gives, it gives on any stopped handle *)
-Definition restart_fresh_statement (fx : bool) : Prop :=
+Definition restart_fresh_statement (fx fs : bool) : Prop :=
   forall beh fuel c ops h sig os,
-  let s := run fx beh fuel (init c) ops in
+  let s := run fx fs beh fuel (init c) ops in
   usable s h = true -> h_signum (get s h) = 0 -> sig <> 0 -> sigok sig = true ->
   fresh_like (get (fst (sig_start fx s h sig os)) h) sig os.
 
@@ -2420,10 +2456,10 @@ Definition sticky_ops : list op :=
   [OInit 0; OStartOneshot 0 10; ORaise 10; ORun 0].
 
 (* item 3: one-shot use, then uv_signal_start: the stale flag stays *)
-Theorem oneshot_flag_sticks_refuted : ~ restart_fresh_statement false.
+Theorem oneshot_flag_sticks_refuted : forall fs, ~ restart_fresh_statement false fs.
 Proof.
-  intros H. specialize (H (fun _ => []) 8 16 sticky_ops 0 10 false). cbv zeta in H.
-  assert (F : fresh_like (get (fst (sig_start false (run false (fun _ => []) 8 (init 16) sticky_ops) 0 10 false)) 0) 10 false).
+  intros fs H. specialize (H (fun _ => []) 8 16 sticky_ops 0 10 false). cbv zeta in H.
+  assert (F : fresh_like (get (fst (sig_start false (run false fs (fun _ => []) 8 (init 16) sticky_ops) 0 10 false)) 0) 10 false).
   { apply H; vm_compute; auto; discriminate. }
   destruct F as (_&F&_). vm_compute in F. discriminate.
 Qed.
@@ -2431,7 +2467,7 @@ Qed.
 (* ... and what that means for the program: started persistently, never stopped by the
    program, yet after one signal the handle is inactive and the disposition is the default *)
 Theorem oneshot_flag_sticks_behaviour :
-  let s := run false (fun _ => []) 8 (init 16)
+  let s := run false false (fun _ => []) 8 (init 16)
              (sticky_ops ++ [OStart 0 10; ORaise 10; ORun 0]) in
   h_active (get s 0) = false /\ disp_of s 10 = Default /\
   count_cb 0 (tr s) = 2 /\ mode_of (tr s) 0 = MIdle.
@@ -2439,18 +2475,18 @@ Proof. vm_compute. repeat split. Qed.
 
 (* the repaired variant keeps watching *)
 Theorem oneshot_flag_fixed_behaviour :
-  let s := run true (fun _ => []) 8 (init 16)
+  let s := run true false (fun _ => []) 8 (init 16)
              (sticky_ops ++ [OStart 0 10; ORaise 10; ORun 0]) in
   h_active (get s 0) = true /\ disp_of s 10 = Handler false /\ h_oneshot (get s 0) = false.
 Proof. vm_compute. repeat split. Qed.
 
 (* item 14 and its one-shot variant: a signal caught before stop + start is still in the
    pipe, so the restarted handle is not fresh (both variants) *)
-Theorem stale_signal_refuted : forall fx, ~ restart_fresh_statement fx.
+Theorem stale_signal_refuted : forall fx fs, ~ restart_fresh_statement fx fs.
 Proof.
-  intros fx H. specialize (H (fun _ => []) 8 16 [OInit 0; OStart 0 10; ORaise 10; OStop 0] 0 10 false).
+  intros fx fs H. specialize (H (fun _ => []) 8 16 [OInit 0; OStart 0 10; ORaise 10; OStop 0] 0 10 false).
   cbv zeta in H.
-  assert (F : fresh_like (get (fst (sig_start fx (run fx (fun _ => []) 8 (init 16) [OInit 0; OStart 0 10; ORaise 10; OStop 0]) 0 10 false)) 0) 10 false).
+  assert (F : fresh_like (get (fst (sig_start fx (run fx fs (fun _ => []) 8 (init 16) [OInit 0; OStart 0 10; ORaise 10; OStop 0]) 0 10 false)) 0) 10 false).
   { apply H; destruct fx; vm_compute; auto; discriminate. }
   destruct F as (_&_&F&_). destruct fx; vm_compute in F; discriminate.
 Qed.
@@ -2459,7 +2495,7 @@ Qed.
    pipe is stopped by that message without ever getting a callback *)
 Theorem oneshot_stopped_without_callback :
   forall fx,
-  let s := run fx (fun _ => []) 8 (init 16)
+  let s := run fx false (fun _ => []) 8 (init 16)
              [OInit 0; OStartOneshot 0 10; ORaise 10; OStartOneshot 0 12; ORun 0] in
   h_active (get s 0) = false /\ count_cb 0 (tr s) = 0 /\ disp_of s 12 = Default.
 Proof. intros fx; destruct fx; vm_compute; repeat split. Qed.
@@ -2531,15 +2567,15 @@ Qed.
 
 (* one delivery while the handler is installed: exactly one message for every handle that
    is in the tree for that signal, none for any other handle (pipe capacity as hypothesis) *)
-Theorem deliver_one_message_each fx beh fuel c ops sig rh :
-  let s := run fx beh fuel (init c) ops in
+Theorem deliver_one_message_each fx fs beh fuel c ops sig rh :
+  let s := run fx fs beh fuel (init c) ops in
   sig <> 0 -> disp_of s sig = Handler rh ->
   (forall l, length (pipe_of s l) + length (targets s sig) <= cap s) ->
   forall h, pending (fst (deliver s sig)) h =
             pending s h + (if existsb (Nat.eqb h) (filter (fun y => h_signum (get s y) =? sig) (tree s)) then 1 else 0).
 Proof.
-  cbv zeta. intros Hs Hd Hc h. destruct (sinv_run fx beh fuel c ops) as [C K].
-  set (s := run fx beh fuel (init c) ops) in *.
+  cbv zeta. intros Hs Hd Hc h. destruct (sinv_run fx fs beh fuel c ops) as [C K].
+  set (s := run fx fs beh fuel (init c) ops) in *.
   unfold deliver. rewrite Hd. cbn [fst]. unfold handler.
   set (s1 := if rh then set_disp s sig Default else s).
   assert (E1 : targets s1 sig = targets s sig) by (apply targets_hs_eq; unfold s1; destruct rh; reflexivity).
@@ -2582,6 +2618,29 @@ Proof.
   - eexists; split; [reflexivity|discriminate].
 Qed.
 
+Lemma api_tr2 fx s o : exists e, tr (api fx s o) = e :: tr s /\ forall h sg, e <> ESnap h sg.
+Proof.
+  destruct o; cbn [api].
+  - eexists; split; [reflexivity|discriminate].
+  - destruct (usable s h); [|eexists; split; [reflexivity|discriminate]].
+    pose proof (start_spec fx s h sig false) as S. destruct (sig_start fx s h sig false) as [s1 r].
+    simpl in S. exists (EOp (OStart h sig) r). split; [|discriminate]. cbn [log tr with_tr]. f_equal.
+    destruct S; subst; rewrite ?stop_tr; auto.
+  - destruct (usable s h); [|eexists; split; [reflexivity|discriminate]].
+    pose proof (start_spec fx s h sig true) as S. destruct (sig_start fx s h sig true) as [s1 r].
+    simpl in S. exists (EOp (OStartOneshot h sig) r). split; [|discriminate]. cbn [log tr with_tr]. f_equal.
+    destruct S; subst; rewrite ?stop_tr; auto.
+  - destruct (usable s h); [exists (EOp (OStop h) 0%Z) | exists (ESkip (OStop h))];
+      (split; [|discriminate]); cbn [log tr with_tr]; rewrite ?stop_tr; reflexivity.
+  - destruct (usable s h); [exists (EOp (OClose h) 0%Z) | exists (ESkip (OClose h))];
+      (split; [|discriminate]); cbn [log tr with_tr]; [|reflexivity].
+    destruct (close_misc s h) as (_&e&_). rewrite e. reflexivity.
+  - destruct (sig =? 0); [eexists; split; [reflexivity|discriminate]|].
+    pose proof (deliver_misc s sig) as D. destruct (deliver s sig) as [s1 r]. simpl in D.
+    destruct D as (_&e&_). exists (EOp (ORaise sig) r). split; [|discriminate]. cbn [log tr with_tr]. rewrite e. reflexivity.
+  - eexists; split; [reflexivity|discriminate].
+Qed.
+
 Lemma api_no_cb fx s o h : count_cb h (tr (api_snap fx s o)) = count_cb h (tr s).
 Proof.
   unfold api_snap. destruct (api_tr fx s o) as (e&E&N).
@@ -2596,10 +2655,10 @@ Qed.
 
 (* handling one message: exactly one callback, on that handle, iff the handle still watches the
    message's signal (i.e. was not stopped before the dispatch); the message is consumed *)
-Theorem dispatch_one_callback fx beh s h sig r h' :
-  count_cb h' (tr (process_msg fx beh s (h, sig) r)) =
+Theorem dispatch_one_callback fx fs beh s h sig r h' :
+  count_cb h' (tr (process_msg fx fs beh s (h, sig) r)) =
   count_cb h' (tr s) + (if (sig =? h_signum (get s h)) && (h =? h') then 1 else 0) /\
-  batch (process_msg fx beh s (h, sig) r) = r.
+  batch (process_msg fx fs beh s (h, sig) r) = r.
 Proof.
   unfold process_msg. cbn [fst snd].
   destruct (sig =? h_signum (get s h)).
@@ -2607,6 +2666,173 @@ Proof.
     destruct (finish_spec (log (script fx (cb_enter s h sig) (beh (cbcount s))) (ECbEnd h)) h r) as (_&_&_&_&e&_).
     cbv zeta in e. rewrite e. simpl. rewrite script_no_cb. unfold cb_enter. ssimpl. simpl.
     destruct (h =? h'); lia.
-  - split; [|apply msg_finish_batch].
+  - split; [|apply msg_skip_batch]. unfold msg_skip. destruct fs; [simpl; lia|].
     destruct (finish_spec s h r) as (_&_&_&_&e&_). cbv zeta in e. rewrite e. simpl. lia.
 Qed.
+
+(* ------------------------------------------------------------------ *)
+(* 11. the repaired one-shot stop (fs = true,                           *)
+(*     notes/C13_fix_oneshot_stale_stop.diff)                           *)
+(* ------------------------------------------------------------------ *)
+(* a message for a signal the handle no longer watches changes nothing but dispatched_signals *)
+Theorem stale_message_keeps_handle fx beh s h sig r :
+  sig <> h_signum (get s h) ->
+  let s' := process_msg fx true beh s (h, sig) r in
+  (forall x, h_signum (get s' x) = h_signum (get s x) /\ h_oneshot (get s' x) = h_oneshot (get s x) /\
+             h_active (get s' x) = h_active (get s x)) /\
+  tree s' = tree s /\ disp_of s' = disp_of s /\ tr s' = tr s.
+Proof.
+  intros Hn. cbv zeta. unfold process_msg. cbn [fst snd].
+  destruct (Nat.eqb_spec sig (h_signum (get s h))); [contradiction|].
+  unfold msg_skip. split; [|repeat split]. intros x. apply inc_disp_same.
+Qed.
+
+(* a handle started one-shot that has not had its callback yet is still watching: no snapshot
+   (uv_is_active after an operation, at callback entry, after a run) ever finds it inactive *)
+Definition OLive (s : state) : Prop :=
+  forall h sg, mode_of (tr s) h = MOne sg false -> h_signum (get s h) = sg.
+
+Fixpoint live_tr (t : list event) : Prop :=
+  match t with
+  | [] => True
+  | e :: t' =>
+      live_tr t' /\
+      match e with
+      | ESnap _ a => forall h sg, mode_of t' h = MOne sg false -> nth h a true = true
+      | _ => True
+      end
+  end.
+
+Definition oneshot_live_statement (fx fs : bool) : Prop :=
+  forall beh fuel c ops t2 d a t0 h sg,
+  tr (run fx fs beh fuel (init c) ops) = t2 ++ ESnap d a :: t0 ->
+  mode_of t0 h = MOne sg false -> nth h a true = true.
+
+Lemma mode_sig_nonzero t x :
+  mode_of t x <> MOne 0 false /\ mode_of t x <> MOne 0 true /\ mode_of t x <> MPers 0.
+Proof.
+  induction t as [|e t IH]; simpl; [repeat split; discriminate|].
+  destruct IH as (a&b&d).
+  destruct e as [o r|o|h' s'|h'|h'|l|l|dd aa]; simpl; auto.
+  - destruct o; simpl; auto.
+    + destruct (h =? x); auto. unfold mode_start. destruct (Nat.eqb_spec sig 0); auto.
+      destruct (negb _); [repeat split; discriminate|].
+      destruct (mode_of t x) as [|q|q k]; [repeat split; try discriminate; congruence| |];
+        destruct (q =? sig); auto; repeat split; try discriminate; congruence.
+    + destruct (h =? x); auto. unfold mode_start. destruct (Nat.eqb_spec sig 0); auto.
+      destruct (negb _); [repeat split; discriminate|].
+      destruct (mode_of t x) as [|q|q k]; [repeat split; try discriminate; congruence| |];
+        destruct (q =? sig); auto; repeat split; try discriminate; congruence.
+    + destruct (h =? x); auto. repeat split; discriminate.
+    + destruct (h =? x); auto. repeat split; discriminate.
+  - destruct (h' =? x); auto. destruct (mode_of t x) as [|q|q [|]]; auto.
+    repeat split; try discriminate; congruence.
+  - destruct (h' =? x); auto. destruct (mode_of t x) as [|q|q k]; auto. repeat split; discriminate.
+  - destruct (nth x aa true); auto. repeat split; discriminate.
+Qed.
+
+Lemma olive_of_link c s : c <> CMid -> TInv c s -> OLive s.
+Proof.
+  intros Hc T h sg Hm. pose proof (t_link _ _ T h) as L. rewrite Hm in L. simpl in L.
+  destruct L as (_&[|[_ ?]]&_); auto. contradiction.
+Qed.
+
+(* with the handles' activity as the invariant has it, a live state passes the snapshot test *)
+Lemma live_snap s :
+  (forall h, h_active (get s h) = negb (h_signum (get s h) =? 0)) -> OLive s -> live_tr (tr s) ->
+  live_tr (tr (snap s)).
+Proof.
+  intros A O Lv. simpl. split; auto. intros h sg Hm. rewrite nth_active.
+  destruct (h <? length (hs s)); auto. rewrite A, (O h sg Hm).
+  destruct (Nat.eqb_spec sg 0) as [->|]; auto.
+  exfalso. destruct (mode_sig_nonzero (tr s) h) as (a&_). contradiction.
+Qed.
+
+Definition PO (c : ctx) (s : state) : Prop := TInv c s /\ OLive s /\ live_tr (tr s).
+
+Lemma olive_frame s s' : tr s' = tr s -> (forall h, h_signum (get s' h) = h_signum (get s h)) ->
+  OLive s -> OLive s'.
+Proof. intros Et Eg O h sg Hm. rewrite Et in Hm. rewrite Eg. auto. Qed.
+
+Theorem po_run fx beh fuel c ops : PO CTop (run fx true beh fuel (init c) ops).
+Proof.
+  apply (rule_run fx true beh PO) with (Rq := fun _ _ => True); auto.
+  - intros c0 s o Hc (T&O&Lv).
+    assert (T1 := tinv_api_pre fx c0 s o Hc T).
+    assert (T' := tinv_api fx c0 s o Hc T). split; auto. split; [eapply olive_of_link; eauto|].
+    unfold api_snap. apply live_snap; [apply (t_act _ _ T1) | eapply olive_of_link; eauto|].
+    destruct (api_tr2 fx s o) as (e&E&Ne). rewrite E. simpl. split; auto.
+    destruct e; auto. exfalso. eapply Ne. reflexivity.
+  - intros s l (T&O&Lv). split; [apply tinv_begin; auto|]. split; [|simpl; auto].
+    intros h sg Hm. simpl in Hm. gs. auto.
+  - intros s l (T&O&Lv) Hb. split; [apply tinv_take; auto|]. split; auto.
+  - intros s h sig r (T&O&Lv) Hb Hs. assert (T' : TInv (CCb h) (cb_enter s h sig)) by (eapply tinv_enter; eauto).
+    split; auto. split; [eapply olive_of_link; eauto; discriminate|].
+    unfold cb_enter. change (tr (with_cbcount (snap (log s (ECb h sig))) (S (cbcount (snap (log s (ECb h sig)))))))
+      with (tr (snap (log s (ECb h sig)))).
+    apply live_snap.
+    + intros x. gs. apply (t_act _ _ T).
+    + intros x sg Hm. simpl in Hm. gs. destruct (Nat.eqb_spec h x) as [<-|].
+      * destruct (mode_of (tr s) h) as [|q|q [|]]; try discriminate.
+      * auto.
+    + simpl. auto.
+  - intros s h sig r (T&O&Lv) Hb. assert (T' : TInv CMid (msg_finish (log s (ECbEnd h)) h r)) by (eapply tinv_exit; eauto).
+    split; auto.
+    destruct (finish_spec (log s (ECbEnd h)) h r) as (f1&_&_&_&f5&_). cbv zeta in *.
+    split; [|rewrite f5; simpl; auto].
+    intros x sg Hm. rewrite f5 in Hm. simpl in Hm.
+    destruct (Nat.eqb_spec h x) as [<-|Hn].
+    + destruct (mode_of (tr s) h); discriminate.
+    + rewrite f1 by auto. gs. eapply olive_of_link with (c := CCb h); eauto. discriminate.
+  - intros s h sig r (T&O&Lv) Hb Hs. split; [eapply tinv_skip_fs; eauto|].
+    unfold msg_skip. split; auto. eapply olive_frame with (s := s); auto. intros x. apply inc_disp_same.
+  - intros s l (T&O&Lv). split; [apply tinv_clq; auto|]. split; auto.
+  - intros s l h (T&O&Lv) _. split; [apply tinv_clq; auto|]. split; auto.
+  - intros s h (T&O&Lv) _ Hd. split; [apply tinv_closed; auto|]. split; [|simpl; auto].
+    intros x sg Hm. simpl in Hm. gs.
+    assert (E : h_signum (get (upd_h s h h_set_closed) x) = h_signum (get s x)).
+    { destruct (Nat.eq_dec h x) as [<-|].
+      - destruct (Nat.lt_ge_cases h (length (hs s))); [rewrite get_upd_same by auto | rewrite upd_h_oob by auto]; reflexivity.
+      - rewrite get_upd_other by auto. reflexivity. }
+    rewrite E. auto.
+  - intros s l (T&O&Lv). assert (T' := tinv_end s l T). split; auto.
+    split; [eapply olive_of_link; eauto; discriminate|].
+    apply live_snap; [intros x; gs; apply (t_act _ _ T) | intros x sg Hm; simpl in Hm; gs; auto | simpl; auto].
+  - split; [apply tinv_init|]. split; [|simpl; auto]. intros h sg Hm. simpl in Hm. discriminate.
+Qed.
+
+Lemma live_tr_app t2 t : live_tr (t2 ++ t) -> live_tr t.
+Proof. induction t2; simpl; auto. intros [H _]; auto. Qed.
+
+Theorem oneshot_live_until_callback : forall fx, oneshot_live_statement fx true.
+Proof.
+  intros fx beh fuel c ops t2 d a t0 h sg Ht Hm.
+  destruct (po_run fx beh fuel c ops) as (_&_&Lv). rewrite Ht in Lv.
+  apply live_tr_app in Lv. simpl in Lv. destruct Lv as [_ Lv]. eauto.
+Qed.
+
+(* refuted for the code as it is: the stale message stops the handle *)
+Theorem oneshot_stale_stop_refuted : forall fx, ~ oneshot_live_statement fx false.
+Proof.
+  intros fx H.
+  assert (X : exists d t0,
+    tr (run fx false (fun _ => []) 8 (init 16)
+          [OInit 0; OStartOneshot 0 10; ORaise 10; OStartOneshot 0 12; ORun 0]) = [] ++ ESnap d [false] :: t0 /\
+    mode_of t0 0 = MOne 12 false).
+  { destruct fx; vm_compute; eexists; eexists; split; reflexivity. }
+  destruct X as (d&t0&E&M).
+  specialize (H _ _ _ _ _ _ _ _ _ _ E M). simpl in H. discriminate.
+Qed.
+
+(* the same run with the repair: the handle keeps watching SIGUSR2, gets exactly one callback,
+   for SIGUSR2, and is then stopped *)
+Theorem oneshot_stale_stop_fixed_behaviour :
+  forall fx,
+  let ops := [OInit 0; OStartOneshot 0 10; ORaise 10; OStartOneshot 0 12; ORun 0] in
+  let s := run fx true (fun _ => []) 8 (init 16) ops in
+  let s2 := run fx true (fun _ => []) 8 (init 16) (ops ++ [ORaise 12; ORun 0; ORaise 12]) in
+  (h_active (get s 0) = true /\ h_signum (get s 0) = 12 /\ count_cb 0 (tr s) = 0 /\
+   disp_of s 12 = Handler true) /\
+  (count_cb 0 (tr s2) = 1 /\ In (ECb 0 12) (tr s2) /\ h_active (get s2 0) = false /\
+   disp_of s2 12 = Default).
+Proof. intros fx; destruct fx; vm_compute; intuition. Qed.
